@@ -55,7 +55,26 @@ structure Agg where
   imports   : List (Str × ItemTy) := []
   /-- `name_redirects` -/
   redirects : List (Str × Str) := []
+  /-- the ids of the named interfaces remapped so far (`interfaces`): one per semver track, the
+      first one seen (`remap_interface` merges a later interface of the track into it), renamed
+      when the import of that name is superseded by a higher version -/
+  ifaces    : List Str := []
 deriving DecidableEq, Repr, Inhabited
+
+/-- the id of the (merged) interface that stands for interface id `d` -/
+def Agg.ifaceOf (a : Agg) (d : Str) : Str :=
+  match a.ifaces.find? fun i => compat i d with
+  | some i => i
+  | none => d
+
+/-- `remap_interface` on the interfaces a type mentions: dependencies first, then the interface itself -/
+def Agg.register (a : Agg) (ty : ItemTy) : Agg :=
+  let ids := ty.deps ++ (match ty.iface with | some i => [i] | none => [])
+  { a with ifaces := ids.foldl (fun l d => if l.any fun i => compat i d then l else l ++ [d]) a.ifaces }
+
+/-- an aggregated import type with its interfaces replaced by the merged ones -/
+def Agg.fix (a : Agg) (ty : ItemTy) : ItemTy :=
+  { ty with iface := ty.iface.map a.ifaceOf, deps := ty.deps.map a.ifaceOf }
 
 /-- `find_semver_compatible_import`: the first import on the same semver track -/
 def Agg.findCompat (a : Agg) (name : Str) : Option (Str × ItemTy) :=
@@ -68,7 +87,8 @@ def Agg.findCompat (a : Agg) (name : Str) : Option (Str × ItemTy) :=
       | none => false
 
 /-- `aggregate` (`none` = the merge failed) -/
-def Agg.aggregate (a : Agg) (name : Str) (ty : ItemTy) : Option Agg :=
+def Agg.aggregate (a0 : Agg) (name : Str) (ty : ItemTy) : Option Agg :=
+  let a := a0.register ty
   match amGet a.imports name with
   | some ex => if ex.kind = ty.kind then some a else none
   | none =>
@@ -79,9 +99,13 @@ def Agg.aggregate (a : Agg) (name : Str) (ty : ItemTy) : Option Agg :=
         match altKey name, altKey exName with
         | some (_, nv), some (_, ev) =>
           if ev.lt nv then
-            some { imports := (a.imports.filter fun e => e.1 != exName) ++ [(name, exTy)],
+            -- the merged interface is renamed with the import (its id follows the import name)
+            let exTy' : ItemTy := if exTy.iface = some exName then { exTy with iface := some name } else exTy
+            some { imports := (a.imports.filter fun e => e.1 != exName) ++ [(name, exTy')],
                    redirects := amInsert (a.redirects.map fun (k, v) => if v == exName then (k, name) else (k, v))
-                                  exName name }
+                                  exName name,
+                   ifaces := if exTy.iface = some exName then a.ifaces.map fun i => if i == exName then name else i
+                             else a.ifaces }
           else some { a with redirects := amInsert a.redirects name exName }
         | _, _ => some a
     | none => some { a with imports := a.imports ++ [(name, ty)] }
@@ -183,8 +207,9 @@ def importDeps : List Str → EncSt → EncSt
       let (st2, idx) := st1.emit (.import d .instance)
       importDeps ds { st2 with instances := amInsert st2.instances d idx }
 
-/-- `CompositionGraphEncoder::import` -/
-def importItem (st : EncSt) (name : Str) (ty : ItemTy) : EncSt × Nat :=
+/-- `CompositionGraphEncoder::import`; `cn` = the aggregator's canonical naming (a `use`d
+    interface that was merged into a higher version is imported under that version's name) -/
+def importItem (cn : Str → Str) (st : EncSt) (name : Str) (ty : ItemTy) : EncSt × Nat :=
   let reuse : Option Nat :=
     if ty.kind = .instance then
       match ty.iface with
@@ -194,7 +219,7 @@ def importItem (st : EncSt) (name : Str) (ty : ItemTy) : EncSt × Nat :=
   match reuse with
   | some idx => (st, idx)
   | none =>
-    let st0 := if ty.kind = .instance then importDeps ty.deps st else st
+    let st0 := if ty.kind = .instance then importDeps (ty.deps.map cn) st else st
     let (st1, _) := st0.emit .typeDef
     let (st2, idx) := st1.emit (.import name ty.kind)
     let st3 :=
@@ -206,11 +231,11 @@ def importItem (st : EncSt) (name : Str) (ty : ItemTy) : EncSt × Nat :=
     (st3, idx)
 
 /-- the import loop of `encode_imports`; `encoded` maps name ↦ (kind, index) -/
-def importAll : List (Str × ItemTy) → EncSt → List (Str × (Kind × Nat)) → EncSt × List (Str × (Kind × Nat))
+def importAll (cn : Str → Str) : List (Str × ItemTy) → EncSt → List (Str × (Kind × Nat)) → EncSt × List (Str × (Kind × Nat))
   | [], st, enc => (st, enc)
   | (name, ty) :: rest, st, enc =>
-    let (st', idx) := importItem st name ty
-    importAll rest st' (amInsert enc name (ty.kind, idx))
+    let (st', idx) := importItem cn st name ty
+    importAll cn rest st' (amInsert enc name (ty.kind, idx))
 
 def pushImplicit (m : List (Nat × List (Str × Kind × Nat))) (node : Nat) (a : Str × Kind × Nat) :
     List (Nat × List (Str × Kind × Nat)) :=
@@ -244,9 +269,10 @@ def encodeImports (g : GraphVal) (importNodes : List Nat) (st : EncSt) : Res Enc
     | .error e => .error e
     | .panic s => .panic s
     | .ok (agg, explicit) =>
-      let insts := agg.imports.filter fun e => e.2.kind = .instance
-      let rest := agg.imports.filter fun e => ¬ (e.2.kind = .instance)
-      let (st1, enc) := importAll (insts ++ rest) st []
+      let fixed := agg.imports.map fun e => (e.1, agg.fix e.2)
+      let insts := fixed.filter fun e => e.2.kind = .instance
+      let rest := fixed.filter fun e => ¬ (e.2.kind = .instance)
+      let (st1, enc) := importAll id (insts ++ rest) st []
       match fillImplicit agg enc r.implicit st1 with
       | .error e => .error e
       | .panic s => .panic s
@@ -409,6 +435,25 @@ def encNames (g : GraphVal) (st : EncSt) : Res EncSt :=
   | .panic s => .panic s
   | .ok [] => .ok st
   | .ok es => .ok (st.emit (.names es)).1
+
+/-- the unsatisfied imports `imports()` lists for one node (by the satisfied set) -/
+def queryOfNode (g : GraphVal) (n : Node) : List (Str × Kind × Option Nat) :=
+  match n.kind with
+  | .instantiation slot sat =>
+    match g.pkg? slot with
+    | some p => (unsatisfied p sat).map fun r => (r.name, r.ty.kind, (none : Option Nat))
+    | none => []
+  | _ => []
+
+def queryOfImport (n : Node) : Option (Str × Kind × Option Nat) :=
+  match n.kind with
+  | .import nm => some (nm, n.ty.kind, some n.id)
+  | _ => none
+
+/-- `CompositionGraph::imports()`: for the instantiations in node-index order their unsatisfied
+    imports (by the satisfied set) in world order, then the explicit imports in node-index order -/
+def importsQuery (g : GraphVal) : List (Str × Kind × Option Nat) :=
+  g.nodes.flatMap (queryOfNode g) ++ g.nodes.filterMap queryOfImport
 
 def isImportNode (g : GraphVal) (id : Nat) : Bool :=
   match g.node? id with
